@@ -9,7 +9,7 @@ RULE = ('one case = the real selector actor (start_node_selector + DCAwareSelect
         '(distinct, not local, within the CURRENT layout, enough, NotEnoughNodes only when too few others exist); plus the wiring membership -> selector (the real watch_membership_changes task fed snapshots with data centres, then selections at every level: quorum sizes count the local node); plus REAL DatacakeNodes (builder + chitchat over loopback + membership watcher + selector; listen address equal to / different from the advertised one) asking their own selector for every level; quick: all levels x all prior-selection pairs on ~60 layouts + random; '
         'thorough: all sequences of <=3 prior selections; non-trivial = at least two selections with different results or an update that removes a node; distinct by hash')
 ASSUMPTIONS = ['the per-level result cache (2 s) does not expire within a case unless the case says so (sel-expire sleeps 2.1 s)',
-               'addresses are unique across the layout; the local node is a member of its own data centre (as the membership layer guarantees)']
+               'sel-set layouts (fed to the selector directly) have unique addresses; layouts WITHOUT the local node, the empty layout and the state before the first update are exercised (degenerate cases) but the property oracle only speaks about layouts that contain the local node in its own data centre (what the membership layer installs)']
 TRUSTED_BASE = ['correspondence: dcharness (real selector actor through NodeSelectorHandle) vs dcdriver (Datacake.Selector model); hook H3 records the random DC choice']
 THEOREM_NOTE = 'Datacake.Selector.selectN / selectNodes / setNodes / getNodes (Model/Selector.lean)'
 LEVELS = ['none', 'one', 'two', 'three', 'quorum', 'localquorum', 'all', 'eachquorum']
@@ -53,12 +53,19 @@ def gen_wired(rng, idx):
     the real selector actor, which is then asked for selections."""
     local_dc = rng.below(3)
     lines = ['case %d node' % idx, 'mem-init 0 100 %d' % local_dc]
+    shared = rng.chance(1, 3)
+    if rng.chance(1, 6):
+        # a selection that reaches the selector before the watcher installed the first membership
+        lines.append('sel-get ' + rng.choice(LEVELS))
     for _ in range(rng.range(1, 3)):
         n_others = rng.choice([0, 1, 1, 2, 3, 3, 4, 5])
         ms = ['0:100@%d' % local_dc]
         for k in range(n_others):
             mid = k + 1
-            ms.append('%d:%d@%d' % (mid, 100 + mid + 10 * rng.below(2), rng.choice([local_dc, local_dc, rng.below(3)])))
+            # one case in three draws addresses from a small pool: two member ids at ONE address (a peer that came back under a
+            # new id while the failure detector still lists the old one), sometimes the local node's own address
+            a = rng.choice([100, 101, 101, 102, 103]) if shared else 100 + mid + 10 * rng.below(2)
+            ms.append('%d:%d@%d' % (mid, a, rng.choice([local_dc, local_dc, rng.below(3)])))
         lines.append('mem-snap ' + ','.join(ms))
         for _ in range(rng.range(1, 4)):
             lines.append('sel-get ' + rng.choice(LEVELS))
@@ -94,8 +101,26 @@ def gen_case(rng, idx):
     return lines
 
 
+def gen_degenerate(rng, idx):
+    """states the membership layer does not normally produce but the selector can be in: nothing installed yet (every node, between
+    `connect()` and the first membership snapshot), an empty layout, a layout that does not contain the local node"""
+    local, local_dc = 1, rng.below(3)
+    lines = ['case %d node' % idx, 'sel-init %d %d' % (local, local_dc)]
+    for _ in range(rng.range(1, 4)):
+        k = rng.below(4)
+        if k == 0: lines.append('sel-set -')
+        elif k == 1: lines.append('sel-set ' + fmt_layout(gen_layout(rng, local, local_dc, keep_local=False)))
+        elif k == 2: lines.append('sel-set ' + fmt_layout(gen_layout(rng, local, local_dc)))
+        for _ in range(rng.range(1, 3)):
+            lines.append('sel-get ' + rng.choice(LEVELS))
+    lines.append('end')
+    return lines
+
+
 def generate(rng, tier):
     cases, idx = [], 0
+    for _ in range(dict(quick=60, thorough=6000, search=600)[tier]):
+        cases.append(gen_degenerate(rng.fork(), idx)); idx += 1
     for _ in range(dict(quick=800, thorough=150000, search=8000)[tier]):
         cases.append(gen_case(rng.fork(), idx)); idx += 1
     # systematic: layouts x local positions x all levels after every sequence of prior selections
@@ -165,15 +190,19 @@ def oracle(case, impl):
         if t[0] == 'sel-init': local, local_dc = int(t[1]), int(t[2])
         elif t[0] == 'mem-init': local, local_dc, layout = int(t[2]), int(t[3]), {}
         elif t[0] == 'mem-snap':
-            layout = {}
-            for m in t[1].split(','):
+            # the membership in force: one entry per ADDRESS (two member ids at one address are one peer), in member-id order
+            layout, seen = {}, set()
+            for m in sorted(t[1].split(','), key=lambda m: int(m.split(':')[0])):
                 a, d = m.split('@')
-                layout.setdefault(int(d), []).append(int(a.split(':')[1]))
+                a = int(a.split(':')[1])
+                if a in seen: continue
+                seen.add(a)
+                layout.setdefault(int(d), []).append(a)
         elif t[0] == 'sel-set': layout = parse_layout(t[1])
         elif t[0] == 'sel-get':
             level = t[1]
             allnodes = [a for v in layout.values() for a in v]
-            others = [a for a in allnodes if a != local]
+            others = sorted(set(a for a in allnodes if a != local))
             req = required(level, layout, local, local_dc)
             o = out.split()
             if o[0] == 'ok':
@@ -182,10 +211,13 @@ def oracle(case, impl):
                 if local in nodes: bad.append('%s: the local node was selected' % line)
                 gone = [a for a in nodes if a not in allnodes]
                 if gone: bad.append('%s: selected nodes that are not in the current membership: %s' % (line, gone))
-                if len(nodes) < req: bad.append('%s: %d nodes selected, level requires %d' % (line, len(nodes), req))
-                if level in ('one', 'two', 'three') and len(nodes) != req: bad.append('%s: %d nodes selected, exactly %d expected' % (line, len(nodes), req))
+                # the counts are promised for membership layouts: those contain the local node, in its own data centre (a layout
+                # without it cannot be installed through DatacakeNode; the selector is still compared with the model on it)
+                proper = local in layout.get(local_dc, [])
+                if proper and len(nodes) < req: bad.append('%s: %d nodes selected, level requires %d' % (line, len(nodes), req))
+                if proper and level in ('one', 'two', 'three') and len(nodes) != req: bad.append('%s: %d nodes selected, exactly %d expected' % (line, len(nodes), req))
             elif o[0] == 'notenough':
-                if len(others) >= req:
+                if len(others) >= req and (local in layout.get(local_dc, []) or not layout):
                     bad.append('%s: NotEnoughNodes(live=%s, required=%s) although %d other live nodes exist' % (line, o[1], o[2], len(others)))
     return bad
 
